@@ -177,6 +177,9 @@ pub enum OneShot {
 pub type OneShotResult = Result<usize, ApiErr>;
 
 pub trait BlockModeObj {
+    fn as_any(&self) -> &dyn core::any::Any;
+    /// `Clone::clone_from(self, src)` when `src` is the same concrete type and it is `Clone`
+    fn assign_from(&mut self, src: &dyn core::any::Any) -> Option<()>;
     /// Push `inp` (whole mode blocks) through the mode.  `out` holds whatever the caller
     /// pre-filled it with; in-place kinds first copy `inp` over it.  For b2b kinds the two
     /// lengths may differ (the API's verdict is returned).
@@ -212,6 +215,9 @@ pub trait BlockModeFactory: Send + Sync {
 // buffered CFB
 
 pub trait BufCfbObj {
+    fn as_any(&self) -> &dyn core::any::Any;
+    /// `Clone::clone_from(self, src)` when `src` is the same concrete type and it is `Clone`
+    fn assign_from(&mut self, src: &dyn core::any::Any) -> Option<()>;
     fn process(&mut self, data: &mut [u8]);
     fn get_state(&self) -> (Vec<u8>, usize);
     fn clone_box(&self) -> Option<Box<dyn BufCfbObj>>;
@@ -289,6 +295,9 @@ impl ApplyKind {
 }
 
 pub trait StreamObj {
+    fn as_any(&self) -> &dyn core::any::Any;
+    /// `Clone::clone_from(self, src)` when `src` is the same concrete type and it is `Clone`
+    fn assign_from(&mut self, src: &dyn core::any::Any) -> Option<()>;
     /// `out` pre-filled by the caller; `InPlace` first copies `inp` over it. For `B2b` the
     /// lengths may differ.
     fn try_apply(&mut self, kind: ApplyKind, inp: &[u8], out: &mut [u8]) -> Result<(), ApiErr>;
@@ -336,6 +345,9 @@ impl CoreKind {
 }
 
 pub trait StreamCoreObj {
+    fn as_any(&self) -> &dyn core::any::Any;
+    /// `Clone::clone_from(self, src)` when `src` is the same concrete type and it is `Clone`
+    fn assign_from(&mut self, src: &dyn core::any::Any) -> Option<()>;
     fn remaining_blocks(&self) -> Option<usize>;
     /// whole blocks only, equal lengths
     fn process(&mut self, kind: CoreKind, inp: &[u8], out: &mut [u8], sched: &mut Sched);
